@@ -71,10 +71,14 @@ def main():
     add('AssertOk', [('k', 'int')], 'int', 'var e interface{} = k; v := e.(int)', 'assert')
     add('AssertNilIface', [('k', 'int')], 'int', 'var e interface{}; trace(3); v := e.(int) + k', 'assert')
     add('AssertIfaceFail', [('k', 'int')], 'int', 'var e interface{} = k; trace(3); s := e.(interface{ M() int }); v := s.M()', 'assert')
+    add('AssertNilErrToAny', [('k', 'int')], 'int', 'var e error; trace(3); x := e.(interface{}); v := k; _ = x', 'assert')
+    add('AssertNilErrToAnyOk', [('k', 'int')], 'int', 'var e error; x, ok := e.(interface{}); v := k; _ = x; if ok { v += 100 }', 'assert')
+    add('AssertNilAnyToNamedEmpty', [('k', 'int')], 'int', 'type Empty interface{}; var e interface{ M() }; trace(3); x := e.(Empty); v := k; _ = x', 'assert')
+    add('AssertErrToAny', [('k', 'int')], 'int', 'var e interface{ M() int } = mt(k); x := e.(interface{}); v := x.(mt).M()', 'assert')
     add('AssertCommaOk', [('k', 'int')], 'int', 'var e interface{} = int8(k); x, ok := e.(int); v := x; if ok { v += 100 }', 'assert')
     os.makedirs(out, exist_ok=True)
     open(os.path.join(out, 'go.mod'), 'w').write('module tvc03\n\ngo 1.24\n')
-    src = ['package tvc03', '', 'import _ "unsafe"', '', '//go:linkname trace C.trace', 'func trace(x int)', '']
+    src = ['package tvc03', '', 'import _ "unsafe"', '', '//go:linkname trace C.trace', 'func trace(x int)', '', 'type mt int', '', 'func (m mt) M() int { return int(m) + 1 }', '']
     meta = {}
     for name, params, res, body, group in fns:
         ps = ', '.join('%s %s' % p for p in params)
